@@ -7,6 +7,7 @@ use crate::exec::{ExecCfg, Outcome, RunResult, mix};
 use crate::explore::{Dev, Explorer, Stats};
 use crate::monitors::commit_before_reveal;
 use crate::mpcrun::{MpcCase, check_honest, mpc_body};
+use crate::skel;
 use crate::util::{Budget, Report, Tier};
 
 pub fn cases_for(n: usize, p_eval: usize) -> MpcCase {
@@ -125,6 +126,11 @@ pub fn main(tier: Tier, seed: u64) -> i32 {
     let mut total_sched = 0u64;
     let mut configs = vec![];
     let mut all_exhaustive = true;
+    let mut skeletons: std::collections::HashMap<(usize, usize), skel::Skeleton> = Default::default();
+    let mut model_states = 0u64;
+    let mut conformance_words = 0u64;
+    let mut conformance_paths = 0u64;
+    let mut skeleton_reports = vec![];
     for (n, p_eval, cap, bound) in plan {
         if budget.exhausted() {
             all_exhaustive = false;
@@ -132,7 +138,72 @@ pub fn main(tier: Tier, seed: u64) -> i32 {
             continue;
         }
         let case = cases_for(n, p_eval);
-        let r = explore_config(&case, cap, bound, mix(seed, 12), &budget);
+        // tier 2: skeleton of this public configuration (n <= 3), extracted once per (n, p_eval)
+        let use_skel = n == 2 || (n == 3 && tier.is_thorough());
+        if use_skel && !skeletons.contains_key(&(n, p_eval)) {
+            match skel::extract(&case, None, mix(seed, 12)) {
+                Ok(ex) => {
+                    skeleton_reports.push(json!({"config": format!("n{n}/e{p_eval}"), "ops_per_party": ex.skel.ops.iter().map(|o| o.len()).collect::<Vec<_>>(), "starve_runs": ex.starve_runs,
+                        "max_guard": ex.skel.ops.iter().flatten().map(|o| o.guard.len()).max()}));
+                    total_sched += ex.starve_runs as u64;
+                    skeletons.insert((n, p_eval), ex.skel);
+                }
+                Err(e) => rep.machinery(format!("skeleton extraction failed for n{n}/e{p_eval}: {e}")),
+            }
+        }
+        let sk = skeletons.get(&(n, p_eval)).filter(|_| use_skel).map(|s| {
+            let mut s = s.clone();
+            s.capacity = cap;
+            s
+        });
+        let rejected: std::sync::Mutex<Vec<String>> = Default::default();
+        let accepted = std::sync::atomic::AtomicU64::new(0);
+        let check = |r: &RunResult<Vec<bool>>| -> Result<(), String> {
+            if let Some(sk) = &sk {
+                match skel::accepts(sk, r) {
+                    Ok(_) => {
+                        accepted.fetch_add(1, std::sync::atomic::Ordering::Relaxed);
+                    }
+                    Err(e) => rejected.lock().unwrap().push(e),
+                }
+            }
+            oracle(&case, r)
+        };
+        let r = explore_config_with(&case, cap, bound, mix(seed, 12), &budget, &check);
+        conformance_words += accepted.load(std::sync::atomic::Ordering::Relaxed);
+        if let Some(e) = rejected.lock().unwrap().first() {
+            rep.machinery(format!("{}: the extracted skeleton rejects a real execution ({e}); tier 2 is not a sound abstraction here", r.name));
+        }
+        // the model itself: all interleavings at this capacity
+        if let Some(sk) = &sk
+            && cap.is_some()
+        {
+            let mr = skel::check_model(sk, if tier.is_thorough() { 600 } else { 20 });
+            model_states += mr.states_bfs as u64;
+            for v in &mr.violations {
+                let class = if v.starts_with("no deadlock") { "skeleton_deadlock" } else { "skeleton_two_outstanding_ops" };
+                rep.violation(format!("{class}:{}", r.name), format!("{} (all interleavings of the extracted skeleton): {v}", r.name), json!({"kind":"c12_model","case":case,"capacity":cap}));
+            }
+            if !mr.completed && !mr.timed_out {
+                rep.machinery(format!("{}: the skeleton model never reaches completion (vacuous)", r.name));
+            }
+            if mr.states_bfs != mr.states_dfs && !mr.timed_out {
+                rep.machinery(format!("{}: BFS and DFS disagree on the number of states ({} vs {})", r.name, mr.states_bfs, mr.states_dfs));
+            }
+            if mr.timed_out {
+                all_exhaustive = false;
+            }
+            // binding model -> code: cover paths executed on the real engine
+            let paths = skel::cover_paths(sk, 400_000, if tier.is_thorough() { 48 } else { 12 });
+            let follow = crate::util::par_map(&paths, |_, _, p| skel::follow(&case, sk, mix(seed, 12), p));
+            for (p, f) in paths.iter().zip(follow.iter()) {
+                match f {
+                    Ok(()) => conformance_paths += 1,
+                    Err(e) => rep.violation(format!("model_path_not_followed:{}", r.name), format!("{}: model path of {} steps: {e}", r.name, p.len()), json!({"kind":"c12_model","case":case,"capacity":cap})),
+                }
+            }
+            skeleton_reports.push(json!({"config": r.name, "model_states_bfs": mr.states_bfs, "model_states_dfs": mr.states_dfs, "max_depth": mr.max_depth, "timed_out": mr.timed_out, "cover_paths_followed_on_code": paths.len()}));
+        }
         total_states += r.states;
         total_trans += r.transitions;
         total_sched += r.schedules;
@@ -220,9 +291,10 @@ pub fn main(tier: Tier, seed: u64) -> i32 {
     rep.set("shape_sweep", json!({"configurations": shapes.len(), "runs": shape_runs.len(), "ok": shape_ok, "policies": ["default", "always the last enabled action", "run a woken party before any delivery"]}));
     rep.evaluations = total_sched;
     rep.distinct_nontrivial = total_sched;
-    rep.set("states", json!(total_states));
+    rep.set("states", json!(total_states + model_states));
     rep.set("transitions", json!(total_trans));
-    rep.set("traces_validated_against_impl", json!(total_sched));
+    rep.set("traces_validated_against_impl", json!(conformance_words + conformance_paths));
+    rep.set("skeleton", json!({"model_states": model_states, "real_executions_accepted_by_model": conformance_words, "model_paths_followed_by_code": conformance_paths, "details": skeleton_reports}));
     rep.set("configurations", json!(configs));
     rep.exhaustive = Some(all_exhaustive);
     rep.rule = "all schedules with <= bound deviations (swap / starve) from the default policy on the real engine, per (n, p_eval, capacity); states = distinct execution states (per-party observation-history hashes + queue lengths + woken/finished flags + starved set) at explored choice points; transitions = scheduler actions executed; every explored schedule is an execution of the implementation itself (traces_validated_against_impl = schedules)".into();
